@@ -179,6 +179,8 @@ def ecdsa_sign(msg, secret, nonce_function=None, extra_data=None, context=None):
         raise ValueError("Message should be 32 bytes long")
     if len(secret) != 32:
         raise ValueError("Secret key should be 32 bytes long")
+    if extra_data is not None and len(extra_data) != 32:
+        raise ValueError("Extra data should be 32 bytes long")
     pk = _key.ECKey()
     pk.set(secret, False)
     sig = pk.sign_ecdsa(msg, nonce_function, extra_data)
